@@ -696,6 +696,15 @@ func (cs *Contracts) parseContractText(pkgPath, file string, text string, baseLi
 					}
 					cl.Expr = e
 				case "lemma":
+					if w := strings.Index(payload, " when "); w > 0 {
+						ce, err := parseSpecExpr(payload[w+6:])
+						if err != nil {
+							errf("%v", err)
+							continue
+						}
+						cl.Expr = ce
+						payload = strings.TrimSpace(payload[:w])
+					}
 					e, err := parseSpecExpr(payload)
 					if err != nil || e.Kind != "call" {
 						errf("lemma Name(args): %v", err)
